@@ -453,6 +453,10 @@ func collectOps(evs []Event) []ackOp {
 func inspectionSrc() string {
 	var b strings.Builder
 	h := "(handler-bind ((condition (lambda (c &rest d) 'unbound)))"
+	// first of all: an error a program merely NAMES internal-panic is an
+	// ordinary error in every later evaluation, whatever host panics the
+	// runtime recovered from before
+	b.WriteString("(sim:probe 'insp \"forged\" (ignore-errors (error 'internal-panic 1)) (handler-bind ((condition (lambda (c &rest d) (list 'caught c)))) (error 'internal-panic 2)))\n")
 	for _, p := range histPkgs {
 		for i := 0; i < 4; i++ {
 			fmt.Fprintf(&b, "(sim:probe 'insp \"%s:g%d\" %s %s:g%d))\n", p, i, h, p, i)
